@@ -20,7 +20,7 @@ from .. import seams, ops, gen, world as W, diskreader as D
 from .common import Out, with_, drop_each, REAL_ALL, STUB_ALL
 
 ID = "C20"
-TIERS = {"quick": {"n": 3600, "chunk": 60}, "thorough": {"n": 30000, "chunk": 100, "wall_cap": 3300}}
+TIERS = {"quick": {"n": 3600, "chunk": 60}, "thorough": {"n": 150000, "chunk": 200, "wall_cap": 3300}}
 RULE = (
     "scenario kinds: chain (1/2), refs (1/4), replay (1/4). chain: generated file, 2-4 filter members (header tests, in(), not(), line_number windows, yes(); scan windows), preceding on a suffix, serial collecting run form. "
     "refs: G = one member assigning a plain variable, a tracking variable and collecting a column, run 1-3 times over different files, then a reader using the three reference forms. replay: G of 1-2 members run 1-3 times, "
